@@ -911,6 +911,43 @@ func execSched(spec *RunSpec, st *Stats) *Violation {
 			}
 		}
 	}
+	if spec.Property == "C14" {
+		// C14 under concurrent use: every faulted call on the shared instance obeys the clauses
+		// of C14 (its own writer's error, its own prefix) while the neighbours' destinations
+		// fail or succeed independently; fault-free calls are the control. Data races are C07's.
+		for i, rs := range out.results {
+			for k, res := range rs {
+				op := spec.Clients[i][k]
+				if res.Skipped || res.Sink == nil || expect[i][k].skip {
+					continue
+				}
+				cfg := spec.Cfg
+				if op.Kind == "PkgConvert" {
+					cfg = Config{}
+				}
+				if op.Kind == "AuxConvert" {
+					cfg = *op.Aux
+				}
+				ref := refModel.Get(cfg, pristine[op.Doc])
+				if ref.out == nil {
+					continue
+				}
+				if st != nil {
+					st.Inc("sched.c14_ops_judged")
+					if op.Fault != nil && res.Sink.fired != "" {
+						st.Inc("fired." + res.Sink.fired)
+						st.Inc("sched.c14_faults_fired")
+					}
+				}
+				r := res
+				if v := checkFaulted(&r, ref.out); v != nil {
+					v.Client, v.Op, v.Race = i, k, race
+					return v
+				}
+			}
+		}
+		return nil
+	}
 	if spec.Property == "C15" {
 		// Only heading ids are judged here: every heading of every document converted under
 		// this schedule carries the ids it gets alone. Other differences and data races are
